@@ -3,6 +3,7 @@
 // exact vertex provenance, exact "simple" and "edge along a side" premises (DESIGN.md section 3, C08).
 #include "region.h"
 #include "gen.h"
+#include "c08_corner.h"
 #include "clipper2/clipper.h"
 
 using namespace vf;
@@ -95,6 +96,37 @@ static bool judge_one(Ctx& ctx, const Case& c, const RB& R, const Path64& p, con
   ctx.count(simple ? "polygons_simple" : (along ? "polygons_selfint_with_edge_along_side(excluded_from_parity)" : "polygons_selfint_parity_judged"));
   if (simple && along) ctx.count("polygons_simple_with_edge_along_side");
 
+  // ---- vertices: inside the rectangle within one unit; new vertices on the boundary within one unit.
+  // (A new vertex more than 1 outside the rectangle is also more than 1 from its boundary: it is reported under
+  //  new_vertex_on_boundary; inside_rect then speaks about input vertices copied into the result.)
+  long long newv = 0;
+  for (auto& rp : res) for (auto& v : rp) {
+    int64_t ex = std::max<int64_t>(std::max(R.l - v.x, v.x - R.r), 0), ey = std::max<int64_t>(std::max(R.t - v.y, v.y - R.b), 0);
+    bool is_input = false;
+    for (auto& u : p) if (u == v) { is_input = true; break; }
+    if (is_input) {
+      if (ex > 1 || ey > 1) {
+        ctx.violation("C08.inside_rect", { "input_vertex_outside_rect_in_result" }, c, who + "result vertex " + pstr(v) + " (an input vertex) is " + std::to_string(std::max(ex, ey)) + " units outside the rectangle");
+        return true;
+      }
+      continue;
+    }
+    ++newv;
+    int64_t db;   // distance to the rectangle boundary (inside: to the nearest side; outside: per-axis excess)
+    if (ex > 0 || ey > 0) db = std::max(ex, ey);
+    else db = std::min(std::min(v.x - R.l, R.r - v.x), std::min(v.y - R.t, R.b - v.y));
+    if (db > 1) {
+      // classifier of the known defect: the vertex is exactly the origin (a default-constructed Point64) and some
+      // input edge passes within one unit of a rectangle corner
+      std::vector<std::string> tags = { (ex > 1 || ey > 1) ? "new_vertex_outside_rect" : "new_vertex_off_boundary" };
+      if (v.x == 0 && v.y == 0 && c08::passes_near_corner(p, true, c08::RBox{ R.l, R.t, R.r, R.b })) tags = { "origin_vertex_from_corner_graze" };
+      ctx.violation("C08.new_vertex_on_boundary", tags, c,
+        who + "result vertex " + pstr(v) + " is not an input vertex and is " + std::to_string(db) + " units from the rectangle boundary");
+      return true;
+    }
+  }
+  ctx.count("result_vertices_new", newv);
+
   // ---- entirely inside: returned unchanged
   if (all_inside) {
     bool strictly = true;
@@ -119,38 +151,26 @@ static bool judge_one(Ctx& ctx, const Case& c, const RB& R, const Path64& p, con
     } else ctx.count("encloses_rect_without_touching");
   }
 
-  // ---- vertices: inside the rectangle within one unit; new vertices on the boundary within one unit
-  long long newv = 0;
-  for (auto& rp : res) for (auto& v : rp) {
-    int64_t ex = std::max<int64_t>(std::max(R.l - v.x, v.x - R.r), 0), ey = std::max<int64_t>(std::max(R.t - v.y, v.y - R.b), 0);
-    if (ex > 1 || ey > 1) {
-      ctx.violation("C08.inside_rect", { "vertex_outside_rect" }, c, who + "result vertex " + pstr(v) + " is " + std::to_string(std::max(ex, ey)) + " units outside the rectangle");
-      return true;
-    }
-    bool is_input = false;
-    for (auto& u : p) if (u == v) { is_input = true; break; }
-    if (is_input) continue;
-    ++newv;
-    int64_t db;   // distance to the rectangle boundary (inside: to the nearest side; outside: already <= 1 per axis)
-    if (ex > 0 || ey > 0) db = std::max(ex, ey);
-    else db = std::min(std::min(v.x - R.l, R.r - v.x), std::min(v.y - R.t, R.b - v.y));
-    if (db > 1) {
-      ctx.violation("C08.new_vertex_on_boundary", { "new_vertex_off_boundary" }, c,
-        who + "result vertex " + pstr(v) + " is not an input vertex and is " + std::to_string(db) + " units from the rectangle boundary");
-      return true;
-    }
-  }
-  ctx.count("result_vertices_new", newv);
-
-  // ---- orientation (simple polygons): every result path with non-zero area has the sign of the input
-  if (simple) {
+  // ---- orientation (simple polygons). A simple polygon has winding s = +-1 inside and 0 outside, so a correct result
+  // has total signed area s * Area(p ∩ rect): its sign must be the input's. Judged on the total, not per path: on
+  // inputs whose edges graze a corner the library legitimately represents a notch that reaches a rectangle side as an
+  // outer path plus an oppositely oriented hole path (TidyEdges split; region and winding numbers are correct), so a
+  // per-path sign test would demand more than the property says. Result vertices may be one unit off the boundary,
+  // so a total that is a sliver inside that band (|area| <= 2 * perimeter) carries no information: skipped, counted.
+  if (simple && !res.empty()) {
+    i128 ra = 0; ld per = 0; bool opposite_path = false;
     for (auto& rp : res) {
-      i128 ra = area2(rp);
-      if (ra == 0) { ctx.count("result_paths_zero_area"); continue; }
+      i128 a = area2(rp); ra += a;
+      if (a != 0 && ((a > 0) != (a2 > 0))) opposite_path = true;
+      for (size_t i = 0; i < rp.size(); ++i) per += sqrtl(to_ld(dist2(rp[i], rp[(i + 1) % rp.size()])));
+    }
+    if (fabsl(to_ld(ra)) * 0.5L <= 2.0L * per) ctx.count(ra == 0 ? "orientation_skipped_zero_area" : "orientation_skipped_sliver_within_tolerance_band");
+    else {
       ctx.count("orientation_checked");
+      if (opposite_path) ctx.count("results_with_an_oppositely_oriented_path(hole_representation,not_a_violation)");
       if ((ra > 0) != (a2 > 0)) {
         ctx.violation("C08.orientation", { a2 > 0 ? "input_positive" : "input_negative" }, c,
-          who + "simple input polygon and a result path have opposite orientation");
+          who + "simple input polygon and the total signed area of the result have opposite signs");
         return true;
       }
     }
@@ -435,13 +455,50 @@ static bool gen_random(Ctx& ctx, Case& c, int cls) {
   return true;
 }
 
+// adversarial: an edge whose line passes through a rectangle corner exactly or misses it by a tiny fraction of a unit,
+// at magnitudes where double-precision cross products are rounded (c08_corner.h)
+static bool gen_corner(Ctx& ctx, Case& c) {
+  Rng& r = ctx.rng;
+  static const int mags[] = { 12, 20, 28, 32, 36, 38, 40 };
+  int e = mags[r.irange(0, 6)];
+  const int64_t M = (int64_t)1 << e;
+  int64_t hw = std::max<int64_t>(2, (int64_t)(M * r.real(0.02, 0.3))), hh = std::max<int64_t>(2, (int64_t)(M * r.real(0.02, 0.3)));
+  int64_t cx = r.range(-M / 8, M / 8), cy = r.range(-M / 8, M / 8);
+  RB R{ cx - hw, cy - hh, cx + hw, cy + hh };
+  int k = r.chance(0.6) ? 1 : r.irange(2, 3);
+  Paths64 P;
+  for (int i = 0; i < k; ++i) {
+    Point64 p1, p2; bool into; int offs;
+    if (!c08::near_corner_segment(r, c08::RBox{ R.l, R.t, R.r, R.b }, M, p1, p2, into, offs)) continue;
+    Path64 p{ p1, p2 };
+    int extra = r.irange(1, 3);
+    for (int j = 0; j < extra; ++j) {
+      if (r.chance(0.25)) { Point64 q1, q2; bool i2; int o2; if (c08::near_corner_segment(r, c08::RBox{ R.l, R.t, R.r, R.b }, M, q1, q2, i2, o2)) { p.push_back(q1); p.push_back(q2); continue; } }
+      p.push_back(r.chance(0.3) ? Point64(r.range(R.l, R.r), r.range(R.t, R.b)) : Point64(r.range(-M, M), r.range(-M, M)));
+    }
+    strip_consecutive(p);
+    if (p.size() < 3) continue;
+    ctx.count(into ? "gen_corner_into_interior" : "gen_corner_grazing");
+    if (offs) ctx.count("gen_corner_with_sub_unit_offset");
+    P.push_back(p);
+  }
+  if (P.empty()) return false;
+  c.p64["P"] = P;
+  c.p64["R"] = Paths64{ Path64{ Point64(R.l, R.t), Point64(R.r, R.b) } };
+  c.seti("lat_s", 0);
+  c.set("class", "corner");
+  ctx.count("mag_2^" + std::to_string(e));
+  return true;
+}
+
 } // namespace
 
 void vf_case(Ctx& ctx, uint64_t i) {
   Case c;
   int sel = (int)(i % 20);
   bool ok;
-  if (sel < 12) ok = gen_lattice(ctx, c);
+  if (sel < 11) ok = gen_lattice(ctx, c);
+  else if (sel < 12) ok = gen_corner(ctx, c);
   else if (sel < 14) ok = gen_random(ctx, c, 1);
   else if (sel < 16) ok = gen_random(ctx, c, 2);
   else ok = gen_random(ctx, c, 0);
